@@ -39,6 +39,11 @@ def qnorm_le_one_hook(nrot_names):
         sq = Poly()
         for n in nrot_names:
             sq = sq + Poly.var(n) * Poly.var(n)
+        # the same domain fact in its squared form (code that tests 1 - |d|^2 instead of |d| against 1)
+        if d == Poly.const(1) - sq:
+            return {0, 1}
+        if d == sq - Poly.const(1):
+            return {-1, 0}
         key = ("sqrt", sq.key())
         name = poly.R.atoms.get(key)
         if name is None:
